@@ -82,9 +82,13 @@ def read_log():
 
 
 def make_instance(cfg):
-    return ModelInstance(number_of_players=cfg["n"], game_class=cfg["computer"], game_generator=cfg["generator"],
+    inst = ModelInstance(number_of_players=cfg["n"], game_class=cfg["computer"], game_generator=cfg["generator"],
                          gap_function=cfg["gap"], run_steps_limit=cfg["budget"], seed=cfg["seed"],
                          parallel_environments=cfg.get("procs", 1))
+    if cfg.get("scale", 1.0) != 1.0 or cfg.get("offset"):
+        from .c09 import Recorder       # re-expresses the hidden games in other units / adds huge stand-alone worths
+        inst.game_generator_fn = Recorder(inst.game_generator_fn, cfg.get("scale", 1.0), cfg.get("offset", 0.0))
+    return inst
 
 
 def monitored_evaluate(cfg, procs):
@@ -127,8 +131,8 @@ def check_result(ctx, cfg, procs, expl, acts, events) -> dict | None:
             ctx.violation("task-not-started-from-minimal-information", f"task {e['task']} started with known set {e['known']}", c)
     for j in range(reps):
         values = hidden[j]
-        scale = max(1.0, float(np.max(np.abs(np.array(values)))))
-        tol = 1e-9 * (1.0 + scale * (1 << n))
+        scale = float(np.max(np.abs(np.array(values))))
+        tol = sut.gap_tol(n, scale)
         ctx.count("columns_replayed")
         col_ok = True
         want0 = expected_gap(n, values, mini, cfg["computer"], cfg["gap"])
@@ -364,7 +368,8 @@ def run(ctx) -> None:
             procs = [1] + procs[1:]
         run_config(ctx, {"n": n, "generator": g, "computer": comp, "gap": rng.choice(list(GAP_FUNCTIONS)), "solver": solver,
                          "seed": rng.randint(0, 10**6), "repetitions": reps, "limit": limit, "budget": budget,
-                         "processes": procs, "jitter": rng.choice([0.0, 0.002])})
+                         "processes": procs, "jitter": rng.choice([0.0, 0.002]), "scale": rng.choice(sut.SCALES),
+                         "offset": rng.choice([0.0, 0.0, 0.0, -1e6])})
         if i % 5 == 1:
             cli_solve(ctx, {"n": 3, "generator": rng.choice(CONTINUOUS), "computer": rng.choice(sut.SA_COMPUTERS),
                             "gap": rng.choice(list(GAP_FUNCTIONS)), "solver": rng.choice(list(SOLVERS)),
